@@ -116,9 +116,9 @@ var props = []Prop{
 	},
 	{
 		ID: "C17",
-		Harnesses: []H{{Pkg: "ecs", Fn: "HC17_DumpLoad"}, {Pkg: "ecs", Fn: "HC17_Refuse", W: 2}},
+		Harnesses: []H{{Pkg: "ecs", Fn: "HC17_DumpLoad"}, {Pkg: "ecs", Fn: "HC17_Refuse", W: 2}, {Pkg: "ecs", Fn: "HC17_Large", W: 4}},
 		Conform: stdConform,
-		Bounds:  "source history: 3 or 5 creations followed by up to 2 (thorough 3) removals of symbolically chosen alive entities, each optionally followed by a re-creation (free-list depth 0..3, mixed generations); 6 triples of capacity increments (1..4) for source and the two receivers; receiver 1 = fresh world loaded at once (Alive of every issued handle, dump(loaded) == dump field by field incl. the Alive sequence); then the source is optionally mutated (removal / creation); receiver 2 = fresh or reset world loaded later from the same dump object (snapshot semantics); then a common suffix of 2 (thorough 3) creations/removals on all worlds with identical handles and Alive answers, final dumps equal (Alive as a set); refusal for worlds with entities, with recycled ids but no reset, locked; acceptance after Reset",
+		Bounds:  "source history: 3 or 5 creations followed by up to 2 (thorough 3) removals of symbolically chosen alive entities, each optionally followed by a re-creation (free-list depth 0..3, mixed generations); 6 triples of capacity increments (1..4) for source and the two receivers; receiver 1 = fresh world loaded at once (Alive of every issued handle, dump(loaded) == dump field by field incl. the Alive sequence); then the source is optionally mutated (removal / creation); receiver 2 = fresh or reset world loaded later from the same dump object (snapshot semantics); then a common suffix of 2 (thorough 3) creations/removals on all worlds with identical handles and Alive answers, final dumps equal (Alive as a set); refusal for worlds with entities, with recycled ids but no reset, locked; acceptance after Reset; HC17_Large: dumps of 64 / 65 / 130 entities (beyond one 64-bit word of the internal bit sets) loaded into fresh or reset worlds with capacity increments 1 / 7 / 128, followed by removals, creations and relation-target use of the highest ids in original and copy",
 		Outside: "the JSON clause (encoding/json is not encodable by the engine); dumps not produced by DumpEntities; more than 8 handles",
 	},
 	{
@@ -153,7 +153,7 @@ var props = []Prop{
 		ID: "C19",
 		Harnesses: []H{{Pkg: "ecs", Fn: "HC19_Isolation"}, {Pkg: "ecs", Fn: "HC19_Isolation", Tags: "tiny", Tier: "thorough"}},
 		Conform: stdConform,
-		Bounds:  "two worlds in one heap (same types registered in opposite order, different capacity increments), 2 (thorough 5) prefixes on world 1, one operation on world 1 out of the single-entity (11 kinds), batch (5), removal/retarget (6) families and a query/cache/registration/resource/Stats bundle, with every legal argument; then a fixed sequence on world 2; decided per path: the set of blocks written by the operations on one world is disjoint from everything reachable from the other world (pointers, slices, interfaces, maps, closures, reflect values) and contains no package-level variable; both worlds' observables stay equal to their models. A violation is replayed natively with two goroutines driving their own worlds under the race detector.",
+		Bounds:  "two worlds in one heap (same types registered in opposite order, different capacity increments), 2 (thorough 5) prefixes on world 1, one operation on world 1 out of the single-entity (11 kinds), batch (5), removal/retarget (6) families and a query/cache/registration/resource/Stats bundle, with every legal argument; then a fixed sequence on world 2; decided per path: creating and populating the first world writes no package-level variable and nothing reachable from one; the set of blocks written by the operations on one world is disjoint from everything reachable from the other world (pointers, slices, interfaces, maps, closures, reflect values) and contains no package-level variable; both worlds' observables stay equal to their models. A violation is replayed natively with two goroutines driving their own worlds under the race detector.",
 		Outside: "goroutine schedules are not enumerated: footprint disjointness implies race freedom and independence for one-goroutine-per-world programs under every schedule; shared state inside the Go runtime (allocator, reflect type cache) is trusted",
 	},
 	{
@@ -161,14 +161,14 @@ var props = []Prop{
 		Harnesses: []H{{Pkg: "ecs", Fn: "HC13_Determinism", MapOrder: true}, {Pkg: "ecs", Fn: "HC13_Determinism", MapOrder: true, Tags: "tiny", Tier: "thorough"}},
 		Conform: stdConform,
 		Census:  true,
-		Bounds:  "self-composition: two freshly created worlds (recording listeners and a registered filter installed) receive the same prefix (3, thorough 6) and the same 1 (thorough 2) operation(s) out of 9 kinds (creation, creation with target, removal, exchange, retarget, batch removal by filter, batch creation, Reset, batch exchange) with arguments picked once; handles, event sequences, query iteration order for 6 filters (plain and registered) and entity dumps must be equal in both worlds; in the engine every range over a map picks its next entry by a solver-chosen index, independently in the two worlds, so a dependence on map order yields a concrete witness order (replayed natively 50 times, Go randomises map iteration); the SSA census of map-range sites, pointer-to-integer conversions, go/select statements and time/rand callees in the four library packages is reported in the evidence",
+		Bounds:  "self-composition: two freshly created worlds (recording listeners and a registered filter installed) receive the same prefix (3, thorough 6) and the same 1 (thorough 2) operation(s) out of 9 kinds (creation, creation with target, removal, exchange, retarget, batch removal by filter, batch creation, Reset, batch exchange) with arguments picked once, plus two scripted scenarios (a target with empty tables in three nodes dies while a registered filter lists them; several targets die in one batch call and their table slots are re-used); handles, event sequences, query iteration order for 6 filters (plain and registered) and entity dumps must be equal in both worlds; in the engine every range over a map picks its next entry by a solver-chosen index, independently in the two worlds, so a dependence on map order yields a concrete witness order (replayed natively 50 times, Go randomises map iteration); the SSA census of map-range sites, pointer-to-integer conversions, go/select statements and time/rand callees in the four library packages is reported in the evidence",
 		Outside: "garbage-collection timing and cross-process effects other than map iteration order (the engine has no collector and one process); ordering by address is covered only by the census (no pointer-to-integer conversion exists in the library)",
 	},
 	{
 		ID: "C14",
 		Harnesses: []H{{Pkg: "ecs", Fn: "HC14_Pointers"}, {Pkg: "ecs", Fn: "HC14_Pointers", Tags: "tiny", Tier: "thorough"}},
 		Conform: stdConform,
-		Bounds:  "REDUCED SCOPE: necessary storage-discipline conditions, not GC schedules. A world with pointer-carrying components in tables [P], [A,P] and a relation table, then 2 (thorough 3) symbolic operations out of 12: creation (growth), write through Get, Set, Assign, move by add/remove of other components, removal of the component, removal of entities (swap-remove), batch move, relation move, Reset, batch removal, children with pointer components; decided in the engine for every path: (N1/N2) every pointer-carrying value written by the library - by typed stores, raw byte copies, reflect.Copy - lands in memory whose allocation type has a pointer word at that offset (what the collector scans), no raw copy cuts a pointer, (N3) storage beyond a table's length and all storage of retired / reset tables is zero, components keep the exact pointer last written and the referent's value; 2 configurations (thorough 6). Native replay of a counterexample additionally sets finalizers and forces collections: referents of live components must survive, all others must be collected.",
+		Bounds:  "REDUCED SCOPE: necessary storage-discipline conditions, not GC schedules. A world with pointer-carrying components in tables [P], [A,P] and a relation table, then 2 (thorough 3) symbolic operations out of 13: creation (growth), write through Get, Set, Assign, move by add/remove of other components, removal of the component, removal of entities (swap-remove), batch move, relation move (single and batch, the relation component carries data), Reset, batch removal, children with pointer components; decided in the engine for every path: (N1/N2) every pointer-carrying value written by the library - by typed stores, raw byte copies, reflect.Copy - lands in memory whose allocation type has a pointer word at that offset (what the collector scans), no raw copy cuts a pointer, (N3) storage beyond a table's length and all storage of retired / reset tables is zero, components keep the exact pointer last written and the referent's value; 2 configurations (thorough 6). Native replay of a counterexample additionally sets finalizers and forces collections: referents of live components must survive, all others must be collected.",
 		Outside: "write barriers, concurrent marking, escape analysis and GC timing (properties of the Go runtime and compiler, not present at go/ssa level); transient states inside one operation (N4 of the design: ordering of zeroing and copying between safepoints) are not checked",
 	},
 }
